@@ -196,14 +196,63 @@ def columns(db, ctx):
     ctx.ob("Simple::write", ok and eos_after, "Simple::write: one loop over morphemes.iter() writing basic, extended iff print_all, then newline; "
                                               "EOS line after the loop: %s / %s" % (ok, eos_after), fn=s)
     w = ww[0]
-    loops = list(_loops(w))
+    from ..loops import iterations, chain as lchain, body_parents
+    from ..inline import nf
+    from ..flow import holds_at
+    from ..guards import holds as _holds
+    its = list(iterations(w.hir))
     okw = False
-    if len(loops) == 1:
-        n, (it, pat, body), ps = loops[0]
-        names, base = _chain(it)
-        txt = render(body)
-        okw = names == ["iter"] and "surface()" in txt and "word_separator" in txt and "sentence_separator" in txt and "last_idx" in txt
-    ctx.ob("Wakachi::write", okw, "Wakachi::write iterates morphemes.iter(), writes surface then word/sentence separator by last index: %s" % okw, fn=w)
+    why = "no single iteration over morphemes.iter()"
+    if len(its) == 1:
+        itn = its[0]
+        ch, base = lchain(db, w, itn["it"])
+        writes = [c for c, _ in walk(itn["body"]) if c.get("k") == "MethodCall" and c.get("method") == "write_all" and c["args"]]
+        first_surface = bool(writes) and mentions(writes[0]["args"][0], lambda x: x.get("k") == "MethodCall" and x.get("method") == "surface")
+        # the trailer: sentence separator exactly for the morpheme whose index() equals len()-1
+        trailer_ok = False
+        for n_, _ in walk_x_(itn["body"]):
+            if n_.get("k") == "If" and "else" in n_:
+                c = cmp_atom(n_["cond"])
+                if not c or c[0] not in ("Eq", "Ne"):
+                    continue
+                sides = [nf(c[1]), nf(c[2])]
+                if not (any(s_.endswith(".index()") for s_ in sides) and "(morphemes.len() - 1)" in sides):
+                    continue
+                at_last, not_last = (n_["then"], n_["else"]) if c[0] == "Eq" else (n_["else"], n_["then"])
+                trailer_ok = "sentence_separator" in render(at_last) and "word_separator" not in render(at_last) and \
+                    "word_separator" in render(not_last) and "sentence_separator" not in render(not_last)
+        second_trailer = len(writes) == 2 and mentions_x(writes[1]["args"][0], lambda x: x.get("k") == "If")
+        okw = [m for m, _ in ch] == ["iter"] and nf(base) == "morphemes" and first_surface and trailer_ok and second_trailer
+        why = "iter=%s surface-first=%s trailer-by-last-index=%s trailer-written-second=%s" % ([m for m, _ in ch], first_surface, trailer_ok, second_trailer)
+    # an empty list still produces a line terminator
+    nl_ok = False
+    for c, _ in walk(w.hir):
+        if c.get("k") == "MethodCall" and c.get("method") == "write_all" and c["args"] and _str_lits_node(c["args"][0]) in (["\n"], [b"\n"], [[10]]):
+            pcs = path_conditions(c["id"], w.hir) or []
+
+            def ev(atom):
+                a = peel(atom)
+                if a.get("k") == "MethodCall" and a.get("method") == "is_empty" and nf(a["recv"]) == "morphemes":
+                    return True
+                cc = cmp_atom(a)
+                if cc:
+                    for x, y, op in ((cc[1], cc[2], cc[0]), (cc[2], cc[1], SWAP_[cc[0]])):
+                        if nf(x) == "morphemes.len()" and lit_int(y) is not None:
+                            return _holds(op, 0, lit_int(y))
+                return None
+            if holds_at(pcs, ev) is True:
+                nl_ok = True
+    okw = okw and nl_ok
+    why += " newline-for-empty-list=%s" % nl_ok
+    ctx.ob("Wakachi::write", okw, "Wakachi::write iterates morphemes.iter(), writes surface then word/sentence separator by last index, and a bare newline for an "
+                                  "empty list: %s (%s)" % (okw, why), fn=w)
+
+
+from ..db import walk_x as walk_x_, SWAP as SWAP_
+
+
+def mentions_x(node, pred):
+    return any(pred(x) for x, _ in walk_x_(node))
 
 
 def _str_lits_node(n):
